@@ -139,7 +139,7 @@ pub fn on_call_end(w: &mut MWorld, ci: usize) {
     }
 }
 pub fn on_get_invoke(w: &mut MWorld, _opi: usize) {
-    if is(w, "C03") {
+    if is(w, "C03") || is(w, "C10") {
         c03_on_invoke(w, _opi);
     }
     let n = w
@@ -167,6 +167,13 @@ pub fn on_get_return(w: &mut MWorld, opi: usize) {
     }
     if is(w, "C03") && !w.draining {
         if let Some(v) = c03_on_return(w, opi) {
+            if w.pending_violation.is_none() {
+                w.pending_violation = Some(v);
+            }
+        }
+    }
+    if is(w, "C10") && !w.draining {
+        if let Some(v) = c10_get_return(w, opi) {
             if w.pending_violation.is_none() {
                 w.pending_violation = Some(v);
             }
@@ -349,6 +356,21 @@ pub fn after_step(w: &mut MWorld, _info: &SimInfo) -> Option<Violation> {
     if snap.is_none() {
         w.orc.idle_prev_valid = false;
     }
+    // a get that has just been left pending in its wait phase: its wait timer started in this step
+    if let (crate::engine::Decision::Run(a), Some(crate::engine::Yield::Pending)) = (_info.last, _info.last_yield) {
+        if let Some(opi) = w.cur_op.get(a).copied().flatten() {
+            let op = &w.ops[opi];
+            if matches!(op.op, Op::Get { .. }) && op.calls.is_empty() && op.wait_start_ms.is_none() {
+                let wait = op.eff.0;
+                w.ops[opi].wait_start_ms = Some(_info.now_ms);
+                if let Some(ms) = wait {
+                    if ms > 0 {
+                        engine::register_deadline(ms);
+                    }
+                }
+            }
+        }
+    }
     w.orc.parked_pending = _info
         .states
         .iter()
@@ -524,6 +546,11 @@ pub fn quiescent(w: &mut MWorld, info: &SimInfo) -> Option<Violation> {
                 "waiter_on_closed_pool",
                 format!("{} caller(s) still wait for a slot after close() returned", wt.waiting.len()),
             ));
+        }
+    }
+    if is(w, "C10") {
+        if let Some(v) = c10_quiescent(w, info.now_ms) {
+            return Some(v);
         }
     }
     // rest point: nobody is past the wait phase, every other actor is between ops
@@ -1784,5 +1811,235 @@ pub fn c06_rest(w: &mut MWorld, when: &str) -> Option<Violation> {
         );
     }
     w.cnt.probe("closed_pool_empty_at_rest");
+    None
+}
+
+// ---- C10: timeouts, non-blocking mode, missing runtime ---------------------------------------
+
+fn c10(clause: &str, d: String) -> Option<Violation> {
+    Some(crate::engine::violation("C10", clause, d))
+}
+
+fn nz(t: Option<u64>) -> Option<u64> {
+    t.filter(|v| *v > 0)
+}
+
+pub fn c10_get_return(w: &mut MWorld, opi: usize) -> Option<Violation> {
+    let op = w.ops[opi].clone();
+    let res = op.result.clone()?;
+    let rt = w.sc.pool.runtime;
+    let (wait, create, recycle) = op.eff;
+    let now = op.return_ms.unwrap_or(0);
+    let abandoned = matches!(res, OpRes::Cancelled | OpRes::EnclosingTimeout | OpRes::Panicked { .. });
+    let calls: Vec<Call> = op.calls.iter().map(|c| w.calls[*c].clone()).collect();
+    let pend_wait = op.pend_first_call.unwrap_or(engine::pending_count(op.actor)) - op.pend_base;
+
+    // -- wait phase --------------------------------------------------------------------------
+    if let Some(wms) = nz(wait) {
+        if !rt {
+            // (d) per-call wait timeout without runtime
+            if res != OpRes::GetErr(ErrV::NoRuntime) && !op.closed_at_invoke {
+                // a closed pool may legitimately answer Closed; anything else is wrong
+                if res != OpRes::GetErr(ErrV::Closed) {
+                    return c10("no_runtime_wait", format!("get with a wait timeout but no runtime returned {:?} instead of NoRuntimeSpecified", res));
+                }
+            }
+            if pend_wait > 0 {
+                return c10("no_runtime_no_hang", "get with a wait timeout but no runtime was left pending".into());
+            }
+            w.cnt.probe("no_runtime_wait_checked");
+        } else if res == OpRes::GetErr(ErrV::TimeoutWait) {
+            let start = op.wait_start_ms.unwrap_or(now);
+            if now < start + wms {
+                return c10(
+                    "wait_timeout_not_early",
+                    format!("Timeout(Wait) {} ms after the call started waiting, wait timeout is {} ms", now - start, wms),
+                );
+            }
+            if !calls.is_empty() {
+                return c10("wait_timeout_only_while_waiting", "Timeout(Wait) although the call had already obtained a slot".into());
+            }
+            w.cnt.probe("wait_timeout_fired");
+        }
+    }
+    if wait == Some(0) {
+        // (b) zero wait: never pending while waiting for a slot
+        if pend_wait > 0 {
+            return c10("zero_wait_never_pending", format!("non-blocking get returned Pending {pend_wait} time(s) before obtaining a slot"));
+        }
+        if !overlapped(w, opi) && calls.is_empty() && !abandoned {
+            // differential: nothing else running => the verdict is determined by free capacity
+            if let Some((s0, _, _)) = op.snap0.clone() {
+                let free = s0.max_size as isize - (w.n_out() as isize);
+                let exp_timeout = free <= 0;
+                match (&res, s0.closed, exp_timeout) {
+                    (OpRes::GetErr(ErrV::Closed), true, _) => {}
+                    (_, true, _) => return c10("zero_wait_closed", format!("non-blocking get on a closed pool returned {:?}", res)),
+                    (OpRes::GetErr(ErrV::TimeoutWait), false, true) => w.cnt.probe("zero_wait_timeout_when_full"),
+                    (OpRes::GetErr(ErrV::TimeoutWait), false, false) => {
+                        return c10("zero_wait_timeout_iff_full", format!("non-blocking get reported Timeout(Wait) although {free} slot(s) were free and nothing else was running"));
+                    }
+                    _ => {}
+                }
+            }
+        }
+        if res == OpRes::GetErr(ErrV::TimeoutWait) && !calls.is_empty() {
+            return c10("wait_timeout_only_while_waiting", "Timeout(Wait) although the call had already obtained a slot".into());
+        }
+    }
+    if wait.is_none() && res == OpRes::GetErr(ErrV::TimeoutWait) {
+        return c10("no_wait_timeout_configured", "Timeout(Wait) without any wait timeout".into());
+    }
+
+    // -- create phase -------------------------------------------------------------------------
+    let create_call = calls.iter().find(|c| c.kind == CallKind::Create);
+    match (nz(create), create_call) {
+        (Some(cms), Some(c)) if rt => {
+            let end = c.end_ms.unwrap_or(now);
+            if res == OpRes::GetErr(ErrV::TimeoutCreate) {
+                if c.res != CallRes::Dropped {
+                    return c10("create_timeout_drops_future", format!("Timeout(Create) but the create call ended as {:?}", c.res));
+                }
+                if end < c.ms + cms {
+                    return c10("create_timeout_not_early", format!("Timeout(Create) after {} ms, create timeout is {} ms", end - c.ms, cms));
+                }
+                if let Some(Outcome { kind, mode: OMode::Delay(d) }) = c.outcome {
+                    if d < cms && kind != OKind::Never {
+                        return c10("create_timeout_only_when_late", format!("create finished after {d} ms, timeout {cms} ms, yet Timeout(Create) was reported"));
+                    }
+                }
+                w.cnt.probe("create_timeout_fired");
+            } else if !abandoned {
+                // The call resolved otherwise. That is legal even if create took longer than the
+                // timeout: the deadline is only examined when the task is polled, and a poll that
+                // finds create finished lets create win. A timeout that never fires is caught
+                // at quiescence (phase_timeout_fires).
+                if let Some(Outcome { mode: OMode::Delay(d), .. }) = c.outcome {
+                    if d >= cms {
+                        w.cnt.probe("create_finished_at_or_after_deadline_before_poll");
+                    }
+                }
+            }
+        }
+        (Some(_), Some(c)) if !rt => {
+            if res != OpRes::GetErr(ErrV::NoRuntime) && !abandoned {
+                return c10("no_runtime_create", format!("create phase reached with a create timeout but no runtime: get returned {:?}", res));
+            }
+            if c.polled {
+                return c10("no_runtime_create", "create future was polled although the timeout cannot be enforced".into());
+            }
+            w.cnt.probe("no_runtime_create_checked");
+        }
+        (None, _) | (Some(_), None) => {
+            if res == OpRes::GetErr(ErrV::TimeoutCreate) && (create.is_none() || create_call.is_none()) {
+                return c10("create_timeout_variant", "Timeout(Create) without a create timeout or without a create call".into());
+            }
+        }
+        _ => {}
+    }
+
+    // -- recycle phase ------------------------------------------------------------------------
+    if res == OpRes::GetErr(ErrV::TimeoutRecycle) {
+        return c10("recycle_timeout_is_a_rejection", "get returned Timeout(Recycle); a recycle timeout must count as a rejected object".into());
+    }
+    for (k, c) in calls.iter().enumerate() {
+        if c.kind != CallKind::Recycle {
+            continue;
+        }
+        let last = calls[k + 1..].iter().all(|c| c.kind == CallKind::Detach);
+        match nz(recycle) {
+            Some(rms) if rt => {
+                if c.res == CallRes::Dropped && !(last && abandoned) {
+                    // the timeout fired: not early, object rejected, get moved on
+                    let end = c.end_ms.unwrap_or(now);
+                    if end < c.ms + rms {
+                        return c10("recycle_timeout_not_early", format!("recycle was abandoned after {} ms, recycle timeout is {} ms", end - c.ms, rms));
+                    }
+                    if let Some(x) = c.obj {
+                        let o = &w.objs[x as usize];
+                        if o.destroyed.is_none() || o.detach_seqs.len() != 1 {
+                            return c10("recycle_timeout_rejects_object", format!("object #{x} timed out in recycle: destroyed={}, detached {} times", o.destroyed.is_some(), o.detach_seqs.len()));
+                        }
+                        if res == OpRes::GetOk(x) {
+                            return c10("recycle_timeout_rejects_object", format!("object #{x} timed out in recycle and was handed out"));
+                        }
+                    }
+                    w.cnt.probe("recycle_timeout_fired");
+                } else if let (CallRes::Ok | CallRes::Err(..), Some(Outcome { mode: OMode::Delay(d), .. })) = (c.res, c.outcome) {
+                    if d >= rms {
+                        w.cnt.probe("recycle_finished_at_or_after_deadline_before_poll");
+                    }
+                }
+            }
+            Some(_) if !rt => {
+                // (d) the error must be reported by this very call, and objects must not be
+                // discarded silently
+                if res != OpRes::GetErr(ErrV::NoRuntime) && !abandoned {
+                    let destroyed = c.obj.map(|x| w.objs[x as usize].destroyed.is_some()).unwrap_or(false);
+                    return c10(
+                        "no_runtime_recycle",
+                        format!(
+                            "recycle phase reached with a recycle timeout but no runtime: get returned {:?}{}",
+                            res,
+                            if destroyed { " and the idle object was destroyed silently" } else { "" }
+                        ),
+                    );
+                }
+                w.cnt.probe("no_runtime_recycle_checked");
+            }
+            _ => {}
+        }
+    }
+    if res == OpRes::GetErr(ErrV::NoRuntime) {
+        // (a zero create / recycle timeout is still a timeout that needs a runtime; only a zero
+        // wait timeout is special: it selects the non-blocking mode)
+        let needs = !rt && (nz(wait).is_some() || (create.is_some() && create_call.is_some()) || (recycle.is_some() && calls.iter().any(|c| c.kind == CallKind::Recycle)));
+        if !needs {
+            return c10("no_runtime_only_when_needed", "NoRuntimeSpecified although no non-zero timeout of a reached phase needs a runtime".into());
+        }
+    }
+    None
+}
+
+/// At quiescence nobody may still be waiting past its deadline.
+pub fn c10_quiescent(w: &mut MWorld, now_ms: u64) -> Option<Violation> {
+    if !w.sc.pool.runtime {
+        return None;
+    }
+    for opi in gets_in_progress(w) {
+        let op = &w.ops[opi];
+        if let Op::Get { enclosing: Some(_), .. } = op.op {
+            continue;
+        }
+        if let Some(wms) = nz(op.eff.0) {
+            if let Some(start) = op.wait_start_ms {
+                if op.calls.is_empty() && now_ms > start + wms {
+                    return c10(
+                        "wait_timeout_fires",
+                        format!("no task is runnable at t={now_ms} ms but a get() waiting since {start} ms with a {wms} ms wait timeout is still waiting"),
+                    );
+                }
+            }
+        }
+        for c in &op.calls {
+            let c = &w.calls[*c];
+            if c.res != CallRes::InFlight {
+                continue;
+            }
+            let t = match c.kind {
+                CallKind::Create => nz(op.eff.1),
+                CallKind::Recycle => nz(op.eff.2),
+                _ => None,
+            };
+            if let Some(t) = t {
+                if now_ms > c.ms + t {
+                    return c10(
+                        "phase_timeout_fires",
+                        format!("no task is runnable at t={now_ms} ms but {} started at {} ms with a {} ms timeout is still in flight", c.kind.name(), c.ms, t),
+                    );
+                }
+            }
+        }
+    }
     None
 }
